@@ -134,7 +134,7 @@ func (c *Check) reconstruction(rule string) {
 	}
 	n := 0
 	for _, pa := range c.P.PathsOf(g) {
-		if len(pa.Ret) != 2 || pa.Ret[0].Op != "lit" {
+		if len(pa.Ret) != 2 || pa.Ret[0].Op != "lit" || !pa.Ret[1].IsAt("#true") {
 			continue
 		}
 		n++
@@ -264,7 +264,7 @@ func (c *Check) callbackRules(prefix string) {
 		outs, errArg := e.Args[3], e.Args[4]
 		// outputs = GetResponseOutputs(id, BatchCounter of the stored context)
 		okOut := outs.Op != "" && strings.Contains(outs.String(), ".RequestContext.BatchCounter") && e.Args[2].IsAt("P2")
-		c.req(okOut, prefix+".callback.outputs", effConstruct(cf.Name, e)+condStr(errArg.IsAt("#nil"), "#ok")+condStr(!errArg.IsAt("#nil"), "#err"), e.Pos,
+		c.req(okOut, prefix+".callback.outputs", effConstruct(cf.Name, e)+condStr(errArg.IsAt("#nil") || errArg.IsAt("zero"), "#ok")+condStr(!(errArg.IsAt("#nil") || errArg.IsAt("zero")), "#err"), e.Pos,
 			"the callback receives the outputs of the context's current batch: "+shortTerm(outs))
 		lt := fmt.Sprintf("(< (len %s) (conv int (.RequestContext.BatchResponseThreshold ", outs)
 		var pos, neg bool
@@ -277,7 +277,8 @@ func (c *Check) callbackRules(prefix string) {
 				}
 			}
 		}
-		if errArg.IsAt("#nil") {
+		isNil := errArg.IsAt("#nil") || errArg.IsAt("zero")
+		if isNil {
 			nNil++
 			c.req(neg, prefix+".callback.threshold", effConstruct(cf.Name, e)+"#nil", e.Pos, "no error iff len(outputs) ≥ BatchResponseThreshold")
 		} else {
